@@ -24,6 +24,9 @@ func Run(cfg *hx.Config) error {
 	for _, ops := range boundaryCases() {
 		emit("boundary", ops, []string{"boundary-fixed"})
 	}
+	for _, ops := range valueCases() {
+		emit("value", ops, []string{"value-fixed"})
+	}
 	for _, ops := range routedCases() {
 		emit("routed", ops, []string{"routed-fixed"})
 	}
